@@ -153,7 +153,8 @@ def run_history(case):
             slots.append(o)
             return ['obj', o.id, tok]
         if t == 'get':
-            o = cls[op[1]].get(op[2])
+            # the id may arrive as a string (from a URL or a form): get() coerces it with sqlmeta.idType
+            o = cls[op[1]].get(str(op[2]) if len(op) > 3 and op[3] == 'str' else op[2])
             tok = token(o)
             slots.append(o)
             return ['obj', o.id, tok]
@@ -484,7 +485,7 @@ def gen_history(rng, profile, length):
             return ['create', k, kv]
         if t == 'get':
             i = rng.choice(rows[k]) if rows[k] and rng.random() < 0.9 else rng.randint(1, nextid[k] + 1)
-            return ['get', k, i]
+            return ['get', k, i, 'str'] if rng.random() < 0.2 else ['get', k, i]
         if t == 'select':
             keep = None
             if rng.random() < 0.5:
@@ -520,8 +521,13 @@ def gen_history(rng, profile, length):
             return ['rawdelete', k, i]
         raise ValueError(t)
 
+    motifs = profile.get('motifs', [])
+    queue = []
     for _ in range(length):
-        op = basic()
+        if not queue and motifs and live and rng.random() < profile.get('p_motif', 0.06):
+            h = rng.choice(live)
+            queue = [list(x) for x in rng.choice(motifs)(rng, h, rows, kinds)]
+        op = queue.pop(0) if queue else basic()
         if rng.random() < profile.get('p_fault', 0.0) and op[0] in ('create', 'get', 'select', 'byalt', 'read', 'setattr', 'set',
                                                                   'syncupdate', 'sync', 'destroy', 'pickle', 'expire'):
             op = ['fault', rng.choice([0, 0, 1, 1, 2]), op]
@@ -559,6 +565,30 @@ def row_of(step, k, i):
 
 def core_op(op):
     return op[2] if op[0] == 'fault' else op
+
+
+# ------------------------------------------------------------------ motifs: short scripted sequences spliced into random histories
+def motif_refresh_after_raw(rng, h, rows, kinds):
+    """expire/sync, an out-of-band change of (probably) that row, expire or sync again, read"""
+    k = rng.choice(kinds)
+    i = rng.choice(rows[k]) if rows[k] else 1
+    c = rng.choice([0, 2])
+    first = rng.choice([[['expire', h], ['sync', h]], [['sync', h]], [['expire', h], ['read', h, c]], []])
+    change = [['rawupdate', kk, ii, c, rng.randint(5, 9)] for kk in (0, 1, 2) for ii in ([i] if kk == k else [])] or []
+    # the handle's row is unknown to the generator: touch the first rows of every class
+    change = [['rawupdate', kk, rng.choice(rows[kk]) if rows[kk] else 1, c, rng.randint(5, 9)] for kk in (0, 1, 2)]
+    return first + change + [[rng.choice(['expire', 'sync']), h], ['read', h, c], ['read', h, 0]]
+
+
+def motif_lazy_refetch(rng, h, rows, kinds):
+    """assign on a (probably lazy) object, re-fetch its row through a select / lookup, flush, read"""
+    c = rng.choice([0, 2])
+    return [['setattr', h, c, rng.randint(0, 4)], ['select', 1, None, None], ['select', rng.choice(kinds), None, None],
+            ['syncupdate', h], ['read', h, c]]
+
+
+def motif_expire_get(rng, h, rows, kinds):
+    return [['expire', h], ['sync', h], ['read', h, rng.randint(0, 2)]]
 
 
 # ------------------------------------------------------------------ profiles
@@ -615,14 +645,14 @@ class Walk:
 
     def __iter__(self):
         prev = {'slots': [], 'tables': [[], [], []], 'cached': [[[], []]] * 3}
-        purged, destroyed, tainted = set(), set(), set()
+        purged, destroyed, tainted, gone = set(), set(), set(), set()
         for n, (op, st) in enumerate(zip(self.case['ops'], self.steps)):
             core = core_op(op)
             t = core[0]
             ok = st['out'][0] == 'ret'
             info = {'n': n, 'op': op, 'core': core, 'ok': ok, 'prev': prev, 'st': st,
                     'purged': set(purged), 'destroyed': set(destroyed),
-                    'tainted': self.tainted_slots(tainted, st['slots'])}
+                    'tainted': self.tainted_slots(tainted | gone, st['slots']), 'gone': set(gone)}
             yield info
             # updates after the step
             pv = prev['slots']
@@ -644,6 +674,8 @@ class Walk:
                 destroyed.add((pv[core[1]][0], pv[core[1]][1]))
             if t in ('rawupdate', 'rawdelete'):
                 tainted.add((core[1], core[2]))      # the row was changed behind the library's back
+                if t == 'rawdelete':
+                    gone.add((core[1], core[2]))     # ... for good: writes to it silently match no row
             if t == 'clear':
                 for v in pv:
                     if v is not None:
@@ -662,7 +694,7 @@ def expected_value(st, view, c):
     return ('v', row[c])
 
 
-def coherence_failures(st, skip_slots=()):
+def coherence_failures(st, skip_slots=(), lazy_row_ok=False):
     """passive check: every cached attribute of every held, non-obsolete instance equals the stored row"""
     out = []
     for i, v in enumerate(st['slots']):
@@ -674,6 +706,10 @@ def coherence_failures(st, skip_slots=()):
             if v[2][c][0] == 'absent':
                 continue
             exp = expected_value(st, v, c)
+            if lazy_row_ok and exp[0] == 'v':
+                row = row_of(st, v[0], v[1])
+                if row is not None and row[c] == v[2][c][1]:
+                    continue        # a lazy object showing the stored value although another one is pending (judged by C16)
             if exp == ('gone',):
                 out.append({'slot': i, 'col': c, 'cached': v[2][c][1], 'row': 'deleted'})
             elif exp[1] != v[2][c][1]:
